@@ -166,5 +166,5 @@ def run_shard(spec) -> Acc:
 
 
 def plan(tier, seed):
-    n = 250 if tier == "quick" else 8000
+    n = 400 if tier == "quick" else 8000
     return [{"shard": i, "n": n} for i in range(16)]
